@@ -360,7 +360,7 @@ func TestC17(t *testing.T) {
 	defer col.Flush()
 	stCfg := gen.StateCfg{D: gen.Small, JSON: true, Top: true}
 	paths := append(gen.AllPaths(stCfg), gen.ROPaths("F")...)
-	check(t, 0, budget(6000, 200000), func(rt *rapid.T) {
+	check(t, 0, budget(16000, 240000), func(rt *rapid.T) {
 		st := gen.SeededState(rapid.Uint64Range(0, 1<<12).Draw(rt, "state_seed"), stCfg)
 		var old []*gast.Rule
 		if rapid.Bool().Draw(rt, "has_old_rules") {
